@@ -50,6 +50,23 @@ def regenerate(ctx):
     if rc != 0:
         msg = "; ".join(l for l in out.splitlines() if l.startswith("extractfsm:") and "wrote" not in l) or out[-800:]
         ctx.broken.append(("translator", "extract fsm failed: " + msg))
+        # No regenerated tables, hence no bngdrv-ncp.  The obligation stays broken; for the SEARCH ONLY fall back to
+        # the committed reference tables (lean/Bng/GenRef, driver bngdrv-ncp-ref) so that the correspondence run and
+        # the monitors can still produce a concrete failing input for the refused source.
+        for c in COMPS:
+            c.drv_bin = "bngdrv-ncp-ref"
+        ctx.notes.append("translator refused the source: search runs on the reference tables lean/Bng/GenRef (bngdrv-ncp-ref)")
+    else:
+        for c in COMPS:
+            c.drv_bin = "bngdrv-ncp"
+        if os.path.realpath(V.REPO) == "/repo":
+            for f in sorted(glob.glob(os.path.join(GEN, "Fsm*.lean"))):
+                ref = os.path.join(V.LEAN, "Bng", "GenRef", os.path.basename(f))
+                body = lambda p: [l.replace("Bng.GenRef", "Bng.Gen") for l in open(p) if not l.startswith("--")]
+                if not os.path.exists(ref) or body(f) != body(ref):
+                    print("NOTE: lean/Bng/GenRef/%s differs from the regenerated table; run tools/refresh-genref.sh and commit"
+                          % os.path.basename(f))
+                    ctx.notes.append("GenRef/%s is stale" % os.path.basename(f))
     ctx.notes.append("extractfsm rc=%d" % rc)
 
 
